@@ -132,6 +132,17 @@ def build_target(t):
     }), pairs
 
 
+PLACEMENT = '|first_n_model_qudits_not_connected'
+
+
+def missed(clause, tag):
+    """signature of a missed target; the recorded placement root cause
+    leads so that one known-finding prefix covers the three target kinds"""
+    if PLACEMENT in tag:
+        return PLACEMENT[1:] + '|' + clause + tag.replace(PLACEMENT, '')
+    return clause + tag
+
+
 def judge_one(t, ref, out_c, pi, pf, bud, out: Outcome, tag=''):
     n, radix = t['n'], t['radix']
     m = out_c.num_qudits
@@ -148,7 +159,7 @@ def judge_one(t, ref, out_c, pi, pf, bud, out: Outcome, tag=''):
                            pi, pf, rad)[0]
         d = refsim.hs_distance(ref, V)
         if leak > bud or d > bud:
-            out.fail('unitary_target_not_reached' + tag,
+            out.fail(missed('unitary_target_not_reached', tag),
                      f'distance {d:.3e} leak {leak:.3e} budget {bud:.3e}')
         return
     V, leak = embed.readback(list(out_c.radixes), embed.circuit_ops(out_c),
@@ -157,7 +168,7 @@ def judge_one(t, ref, out_c, pi, pf, bud, out: Outcome, tag=''):
         got = V[:, 0]
         infid = 1 - abs(np.vdot(ref, got)) ** 2
         if math.sqrt(max(infid, 0)) > bud or leak > bud:
-            out.fail('state_target_not_reached' + tag,
+            out.fail(missed('state_target_not_reached', tag),
                      f'infidelity {infid:.3e} leak {leak:.3e} budget^2 '
                      f'{bud * bud:.3e}')
         return
@@ -165,10 +176,30 @@ def judge_one(t, ref, out_c, pi, pf, bud, out: Outcome, tag=''):
         got = V @ a
         infid = 1 - abs(np.vdot(b, got)) ** 2
         if math.sqrt(max(infid, 0)) > bud:
-            out.fail('state_system_pair_not_mapped' + tag,
+            out.fail(missed('state_system_pair_not_mapped', tag),
                      f'pair {i}: infidelity {infid:.3e} budget^2 '
                      f'{bud * bud:.3e}')
             return
+
+
+def placement_tag(t, model) -> str:
+    """Signature suffix for the one recorded root cause that makes synthesis
+    miss its target: the synthesis workflows work on the model's FIRST n
+    qudits and never choose a placement, so when those qudits are not
+    connected among themselves no entangling gate can be placed."""
+    n = t['n']
+    if model is None or n < 2:
+        return ''
+    edges = [(a, b) for a, b in model.coupling_graph if a < n and b < n]
+    seen, todo = {0}, [0]
+    while todo:
+        x = todo.pop()
+        for a, b in edges:
+            for u, v in ((a, b), (b, a)):
+                if u == x and v not in seen:
+                    seen.add(v)
+                    todo.append(v)
+    return '' if len(seen) == n else PLACEMENT
 
 
 def check(case) -> Outcome:
@@ -220,10 +251,10 @@ def check(case) -> Outcome:
             return out
         for i, (t, b, r) in enumerate(zip(targets, built, res)):
             judge_one(t, b[1], r[0], list(r[1]), list(r[2]), bud, out,
-                      tag='|in_list')
+                      tag='|in_list' + placement_tag(t, model))
     else:
         judge_one(targets[0], built[0][1], res[0], list(res[1]), list(res[2]),
-                  bud, out)
+                  bud, out, tag=placement_tag(targets[0], model))
     out.nontrivial = any(
         t['kind'] not in ('identity', 'basis') for t in targets
     ) or case['model'] is not None
